@@ -21,6 +21,7 @@ func checkC19(p *Prog, c *Check) {
 	c19Trigger(p, c)
 	c19Start(p, c)
 	c19Det(p, c)
+	c19AdvanceOnlyReleased(p, c)
 }
 
 func c19Identities(p *Prog, c *Check) {
